@@ -237,7 +237,7 @@ Proof.
   - destruct (load_current_user_HU _ _ _ _ H E1) as [-> [u ->]]. clear E1 NP. cbn beta iota in K.
     assert (G : npc (if negb (is_locked E u) then ret true
                      else log [u_pid u; q_path (e_req E)] ;;;
-                          try (redirect E (ro_fail (p_lock_notok_of (e_cfg E)))) (fun _ => ret tt) ;;; ret false)) by npc_go.
+                          try (redirect E (ro_fail (p_lock_notok_of (e_cfg E)))) (fun r => match r with Ok _ => ret tt | _ => log [] end) ;;; ret false)) by npc_go.
     exact (G _ _ _ H K).
   - destruct (load_current_user_HU _ _ _ _ H E1) as [_ [u Hr]]. discriminate Hr.
 Qed.
@@ -247,7 +247,7 @@ Proof.
   - destruct (load_current_user_HU _ _ _ _ H E1) as [-> [u ->]]. clear E1 NP. cbn beta iota in K.
     assert (G : npc (if u_confirmed u then ret true
                      else log [u_pid u; q_path (e_req E)] ;;;
-                          try (redirect E (ro_fail (p_confirm_notok_of (e_cfg E)))) (fun _ => ret tt) ;;; ret false)) by npc_go.
+                          try (redirect E (ro_fail (p_confirm_notok_of (e_cfg E)))) (fun r => match r with Ok _ => ret tt | _ => log [] end) ;;; ret false)) by npc_go.
     exact (G _ _ _ H K).
   - destruct (load_current_user_HU _ _ _ _ H E1) as [_ [u Hr]]. discriminate Hr.
 Qed.
